@@ -144,6 +144,9 @@ class Constant(Leaf):
             #   rule keeps the relative indentation of its lines
             return f'```\n{trim(literal)}```'
         # NOTE evaluation trims the text: the blanks at its ends are not part of it
+        if '`' in literal:
+            # NOTE only the ```...``` form may hold a backtick
+            return f'```{literal.strip()}```'
         return f'`{literal.strip()}`'
 
     @cached_property
